@@ -182,6 +182,20 @@ pub fn draw_line<T: Copy>(mut image: NdTensorViewMut<T, 2>, line: Line, value: T
         let img_height: i32 = image.rows().try_into().unwrap();
         let img_width: i32 = image.cols().try_into().unwrap();
 
+        // Nothing to draw if the image is empty or the line lies entirely
+        // outside it. Clamping the endpoints would otherwise move such a line
+        // onto the nearest edge of the image.
+        let bounds = line.bounding_rect();
+        if img_height == 0
+            || img_width == 0
+            || bounds.bottom() < 0
+            || bounds.top() >= img_height
+            || bounds.right() < 0
+            || bounds.left() >= img_width
+        {
+            return;
+        }
+
         let start = clamp_to_bounds(line.start, img_height, img_width);
         let end = clamp_to_bounds(line.end, img_height, img_width);
         let clamped = Line::from_endpoints(start, end);
